@@ -7,6 +7,7 @@ import (
 	"go/token"
 	"os"
 	"path"
+	"path/filepath"
 	"sort"
 	"strings"
 	"testing"
@@ -23,7 +24,7 @@ import (
 type c7Gen struct {
 	Name string `json:"name"`
 	Mode string `json:"mode"`
-	// Behaviour: render | nothing | skip | ignore | ignore+output | wrapignore | wrapskip
+	// Behaviour: render | nothing | skip | ignore | ignore+output | wrapignore | wrapskip | ignore-first[+skip] | ignore-last | defer-only
 	Behaviour string `json:"behaviour"`
 }
 
@@ -32,12 +33,16 @@ type c7Run struct {
 	Entries []string `json:"entries"`
 	All     bool     `json:"all,omitempty"`
 	Force   bool     `json:"force,omitempty"`
+	// Cwd: the directory gengo is started in, relative to the module root ("" = the root); entrypoints are import paths then
+	Cwd string `json:"cwd,omitempty"`
 }
 
 type c7Case struct {
 	ModCase
 	Base string  `json:"base"`
 	Runs []c7Run `json:"runs"`
+	// Unhashable: every package directory holds a dangling symlink (the directory hash cannot be computed)
+	Unhashable bool `json:"unhashable,omitempty"`
 }
 
 var c7GenNames = []string{"g", "gen", "deep", "deepcopy", "a", "ab", "x1", "doc"}
@@ -101,6 +106,8 @@ func genC07(t *rapid.T) c7Case {
 	if rapid.IntRange(0, 3).Draw(t, "rootlookalike") == 0 {
 		c.Mod.Extra = append(c.Mod.Extra, modspec.File{Name: "docs/" + c.Base + ".g.go", Data: "package docs\n"})
 	}
+	c.Mod.Extra = append(c.Mod.Extra, modspec.File{Name: "zdocs/sub/notes.md", Data: "notes\n"})
+	c.Unhashable = rapid.IntRange(0, 4).Draw(t, "unhashable") == 0
 	nruns := rapid.IntRange(1, 3).Draw(t, "nruns")
 	for ri := 0; ri < nruns; ri++ {
 		var run c7Run
@@ -113,7 +120,7 @@ func genC07(t *rapid.T) c7Case {
 			}
 			seen[n] = true
 			g := c7Gen{Name: n, Mode: rapid.SampledFrom([]string{"fixed", "new"}).Draw(t, "gmode"),
-				Behaviour: rapid.SampledFrom([]string{"render", "render", "nothing", "skip", "ignore", "ignore+output", "wrapignore", "wrapskip", "ignore-first", "ignore-first+skip", "ignore-last"}).Draw(t, "behaviour")}
+				Behaviour: rapid.SampledFrom([]string{"render", "render", "nothing", "skip", "ignore", "ignore+output", "wrapignore", "wrapskip", "ignore-first", "ignore-first+skip", "ignore-last", "defer-only"}).Draw(t, "behaviour")}
 			run.Gens = append(run.Gens, g)
 		}
 		ne := rapid.IntRange(1, len(c.Mod.Pkgs)).Draw(t, "nentries")
@@ -123,6 +130,12 @@ func genC07(t *rapid.T) c7Case {
 		}
 		run.All = rapid.Bool().Draw(t, "all")
 		run.Force = run.All && rapid.Bool().Draw(t, "force")
+		switch rapid.IntRange(0, 5).Draw(t, "cwd") {
+		case 0:
+			run.Cwd = "zdocs/sub" // a directory of the module that is no package
+		case 1:
+			run.Cwd = perm[0].Dir // inside a package directory
+		}
 		c.Runs = append(c.Runs, run)
 	}
 	return c
@@ -173,6 +186,9 @@ func (g c7Gen) script(mc *ModCase) *script.Script {
 		s.Default = script.Action{Err: "wrapignore"}
 	case "ignore+output":
 		s.Default = script.Action{Render: render, Err: "ignore"}
+	case "defer-only":
+		// nothing from GenerateType itself: everything is rendered by a callback registered with Context.Defer
+		s.Default = script.Action{Defers: []script.DeferAction{{Render: []script.Piece{{Kind: "block", Text: "\nvar _$G_$T_deferred = 0\n"}}}}}
 	}
 	return s
 }
@@ -180,6 +196,13 @@ func (g c7Gen) script(mc *ModCase) *script.Script {
 func oracleC07(c c7Case) error {
 	dir := tempModule(&c.Mod)
 	defer os.RemoveAll(dir)
+	if c.Unhashable {
+		for i := range c.Mod.Pkgs {
+			if err := os.Symlink("does-not-exist", filepath.Join(dir, filepath.FromSlash(c.Mod.Pkgs[i].Dir), "dangling")); err != nil {
+				panic("harness: symlink: " + err.Error())
+			}
+		}
+	}
 	for ri, run := range c.Runs {
 		before := mustSnapshot(dir)
 		globals := map[string][]string{}
@@ -190,9 +213,13 @@ func oracleC07(c c7Case) error {
 		}
 		var entries []string
 		for _, e := range run.Entries {
-			entries = append(entries, entry(e))
+			if run.Cwd != "" {
+				entries = append(entries, c.Mod.PkgPath(c.Mod.PkgByDir(e)))
+			} else {
+				entries = append(entries, entry(e))
+			}
 		}
-		res := script.Run(script.RunSpec{Dir: dir, Entrypoints: entries, All: run.All, Force: run.Force, Globals: globals, Base: c.Base, Scripts: scripts})
+		res := script.Run(script.RunSpec{Dir: dir, Cwd: run.Cwd, Entrypoints: entries, All: run.All, Force: run.Force, Globals: globals, Base: c.Base, Scripts: scripts})
 		if res.LoadErr != "" {
 			panic("harness: synthetic module does not load: " + res.LoadErr)
 		}
@@ -391,8 +418,11 @@ func c7Features(c c7Case) []string {
 	}
 	for _, run := range c.Runs {
 		for _, g := range run.Gens {
-			if g.Behaviour != "render" && g.Behaviour != "ignore+output" {
+			if g.Behaviour != "render" && g.Behaviour != "ignore+output" && g.Behaviour != "defer-only" {
 				fs["generator-renders-nothing"] = true
+			}
+			if g.Behaviour == "defer-only" {
+				fs["renders-only-from-defer"] = true
 			}
 			if strings.Contains(g.Behaviour, "ignore") {
 				fs["errignore"] = true
